@@ -266,6 +266,14 @@ def r4_r5(ctx, F):
                 shape_ok = False
             if n[0] == 'unop' and n[1] in ('Not', 'Neg'):
                 shape_ok = False
+        # an Option-typed slot must be filled with a literal Some(..): a fallible constructor (e.g. NonZero::new) would turn
+        # some argument values into "unset", i.e. silently drop the setting
+        fty = [f['ty']['s'] for f in da['variants'][0]['fields'] if f['name'] == wrote]
+        if fty and fty[0].startswith('std::option::Option<'):
+            sv = prov.strip(v, names=set())
+            ctx.require(sv[0] == 'agg' and sv[3] == 'Some', 'C18-R5', s + ':always-set', 'Difficulty::%s always records a value (literal Some(..))' % s, m.where(),
+                        bad='Difficulty::%s stores `%s` into an Option slot: for some arguments nothing is recorded and the setting silently reverts to its default'
+                            % (s, prov.show(sv, maxdepth=4)))
         nparams = len(m.j['inputs']) - 1
         ctx.require(shape_ok and params_used == set(range(2, 2 + nparams)), 'C18-R5', s + ':value',
                     'stored value is built from exactly the setter\'s own parameter(s) (clamp / Some / into only)', m.where(),
